@@ -68,6 +68,24 @@ def run (t : Tier) : Emit Unit := do
       units := units ++ [({ pid := 0x100, payload := bytes, data := [{ pes := some { data := payload, header := h } }], psi := false, chunks := chunks, firstAF := none } : TSUnit)]
     let m : StreamModel := { units := units, schedule := [] }
     emit "C02" (demuxCase m.bytes { view := .perpid } none (some (showPerPID m.expected 0 "eof")) "unit-exactly-fills-the-pooled-buffer")
+  -- a PMT unit of two large sections (section_length >= 256) cut so that the second section's three header bytes lie on
+  -- both sides of a packet boundary (table_id | length, table_id length-high | length-low): the unit is complete when its
+  -- last byte has arrived, not before
+  for rep in [0:(if t.quick then 2 else 8)] do
+    let (s1, b1) ← liftGen (genSectionOfKind 1 true)
+    let (s2, b2) ← liftGen (genSectionOfKind 1 true)
+    if b1.length < 256 || b2.length < 256 || b1.length + b2.length > 3000 then continue
+    let bytes := Spec.unitEncode 0 [b1, b2] 0
+    let m0 ← liftGen (genStream { pesPIDs := [0x100], pmtPIDs := [0x1000], dvb := false, unitsPerPID := 1 })
+    let patU := m0.units.filter (·.pid == 0)
+    for split in [1 + b1.length + 1, 1 + b1.length + 2, 1 + b1.length + 3] do
+      let post := bytes.length - split
+      let chunks := (if split % 184 = 0 then [] else [split % 184]) ++ List.replicate (split / 184) 184 ++ List.replicate (post / 184) 184 ++ (if post % 184 = 0 then [] else [post % 184])
+      let u : TSUnit := { pid := 0x1000, payload := bytes, data := [dataOfSection s1, dataOfSection s2], psi := true, chunks := chunks, sectionsEnd := bytes.length }
+      let pes ← liftGen (genPESUnit 0x100 200)
+      let m : StreamModel := { units := patU ++ [u, pes, u], schedule := [] }
+      emit "C02" (demuxCase m.bytes { view := .perpid } none (some (showPerPID m.expected 0 "eof")) "section-header-straddles-a-packet-boundary")
+      let _ := rep
   -- PES PIDs at every single-bit distance from the PMT PID: none of them is a table PID
   for half in [0, 1] do
     let nbrs := (((List.range 13).map fun k => 0x1000 ^^^ (2 ^ k)).filter fun p => p != 0 && p < 0x1fff).drop (half * 6) |>.take 6
